@@ -93,6 +93,79 @@ theorem gen_rv_try_reserve_exact (c : Cfg) (v : VS) (used extra : Nat) :
   unfold tryReserveResult
   cases reserveGen c v used extra true <;> simp
 
+/-- `current_layout`: `None` for an unallocated vector, else `size_of::<T>() * cap` bytes at `align_of::<T>()` -/
+theorem gen_current_layout (c : Cfg) (v : VS) (h : c.esz * v.cap < USIZE) :
+    Gen.Fn.current_layout c v = .ok (if v.cap = 0 then none else some ⟨c.esz * v.cap, c.eal⟩) := by
+  unfold Gen.Fn.current_layout
+  by_cases h0 : v.cap = 0 <;> simp [h0, h]
+
+/-- `reserve_internal` as translated — new capacity, `Layout::array`, the arena's answer, `handle_alloc_error` for the
+infallible flavour, the assignment of `ptr`/`cap` — is the hand model the callers are proved against -/
+theorem gen_rv_reserve_internal (c : Cfg) (v : VS) (used extra : Nat) (f : Fallibility) (st : Strategy)
+    (hh : v.cap * 2 < USIZE) (hb : c.esz * v.cap < USIZE) :
+    Gen.Fn.rv_reserve_internal c used extra f st v = reserve_internal c used extra f st v := by
+  have key : ∀ (nc : Nat), Gen.Fn.rv_reserve_internal.k_1 c used extra f st nc v =
+      match arrayLayout c.esz c.eal nc with
+      | none => (v, .ok (.error .capOverflow))
+      | some bytes =>
+        if !c.allocOk || decide (bytes > c.allocLimit) then
+          (if f == .infallible then (v, .panic) else (v, .ok (.error .allocErr)))
+        else ({ v with cap := nc, slots := resizeSlots v.slots nc }, .ok (.ok ())) := by
+    intro nc
+    unfold Gen.Fn.rv_reserve_internal.k_1
+    simp only [layoutArray]
+    cases hl : arrayLayout c.esz c.eal nc with
+    | none => simp [okOr]
+    | some bytes =>
+      simp only [Option.map_some, okOr, gen_alloc_guard, pureV, bindV, gen_current_layout c v hb]
+      have hk2 : ∀ (a1 a2 a3 a4 : Nat) (l1 l2 : Layout) (r1 : Except RErr Unit) (u : Unit) (ol : Option Layout),
+          Gen.Fn.rv_reserve_internal.k_2 c a1 a2 f st a3 nc l1 l2 r1 u ol (arena_serves c bytes) v =
+            if !c.allocOk || decide (bytes > c.allocLimit) then
+              (if f == .infallible then (v, .panic) else (v, .ok (.error .allocErr)))
+            else ({ v with cap := nc, slots := resizeSlots v.slots nc }, .ok (.ok ())) := by
+        intro a1 a2 a3 a4 l1 l2 r1 u ol
+        unfold Gen.Fn.rv_reserve_internal.k_2 arena_serves
+        by_cases hs : (!c.allocOk || decide (bytes > c.allocLimit)) = true
+        · simp only [hs, if_true]
+          cases f <;> simp
+        · simp only [hs, Bool.false_eq_true, if_false]
+          cases f <;> simp [set_cap, bindV]
+      by_cases h0 : v.cap = 0
+      · simp only [h0, if_true]
+        exact hk2 _ _ _ 0 _ _ _ _ _
+      · simp only [h0, if_false, beq_self_eq_true, if_true]
+        exact hk2 _ _ _ 0 _ _ _ _ _
+  unfold Gen.Fn.rv_reserve_internal reserve_internal reserveInternal
+  cases st with
+  | exact =>
+    simp only [beq_self_eq_true, if_true]
+    cases hc : checkedAdd used extra with
+    | none => simp [okOr]
+    | some nc =>
+      simp only [okOr, key]
+      cases arrayLayout c.esz c.eal nc with
+      | none => rfl
+      | some bytes =>
+        simp only []
+        by_cases hs : (!c.allocOk || decide (bytes > c.allocLimit)) = true
+        · simp only [hs, if_true]
+        · simp only [hs, Bool.false_eq_true, if_false]
+  | amortized =>
+    have hne : (Strategy.amortized == Strategy.exact) = false := by decide
+    simp only [hne, Bool.false_eq_true, if_false, gen_amortized_new_size c v used extra hh, pureV, bindV]
+    cases hc : amortizedNewCap c v used extra with
+    | none => simp [okOr]
+    | some nc =>
+      simp only [okOr, key]
+      cases arrayLayout c.esz c.eal nc with
+      | none => rfl
+      | some bytes =>
+        simp only []
+        by_cases hs : (!c.allocOk || decide (bytes > c.allocLimit)) = true
+        · simp only [hs, if_true]
+        · simp only [hs, Bool.false_eq_true, if_false]
+
+#print axioms gen_rv_reserve_internal
 #print axioms gen_rv_cap
 #print axioms gen_alloc_guard
 #print axioms gen_amortized_new_size
